@@ -1828,10 +1828,51 @@ class CBEval(AutoEvaluator):
             self.raised = e.node or self.fn
             self.done = True
 
+    _LIST_MUT = ("append", "insert", "extend", "pop", "remove", "sort", "reverse", "clear")
+
+    def _list_mutation(self, c):
+        """a statement that changes a Python list in place (`pieces.insert(0, q)`): followed (append / extend / insert at a decided position / reverse /
+        clear) or the list becomes unknown - never skipped, the list would silently keep its old content"""
+        if not (isinstance(c, ast.Call) and isinstance(c.func, ast.Attribute) and c.func.attr in self._LIST_MUT and isinstance(c.func.value, ast.Name)):
+            return False
+        n = c.func.value.id
+        cur = self.env.get(n)
+        if not isinstance(cur, PyList):
+            return False
+        a, new = c.func.attr, None
+        try:
+            if not c.keywords:
+                if a == "append" and len(c.args) == 1:
+                    new = PyList(tuple(cur) + (self.ev_ref(c.args[0]),))
+                elif a == "extend" and len(c.args) == 1:
+                    v = self.ev(c.args[0])
+                    if isinstance(v, (PyList, PyTuple)):
+                        new = PyList(tuple(cur) + tuple(v))
+                elif a == "insert" and len(c.args) == 2:
+                    i = self.ev(c.args[0])
+                    if is_rat(i) and i.is_const() and i.const_value().denominator == 1:
+                        k = int(i.const_value())
+                        k = max(0, len(cur) + k) if k < 0 else min(k, len(cur))
+                        new = PyList(tuple(cur[:k]) + (self.ev_ref(c.args[1]),) + tuple(cur[k:]))
+                elif a == "reverse" and not c.args:
+                    new = PyList(tuple(reversed(cur)))
+                elif a == "clear" and not c.args:
+                    new = PyList(())
+        except Unsupported:
+            new = None
+        if new is None:
+            new = Unknown(f"the list `{n}` is changed in place by .{a}() in a way the evaluator does not follow")
+        for k_, v_ in list(self.env.items()):
+            if v_ is cur:
+                self.env[k_] = new
+        return True
+
     def stmt(self, st):
         if self.done or self.ctl:
             return
         if isinstance(st, ast.Expr):
+            if self._list_mutation(st.value):
+                return
             self.ev(st.value)
             return
         if isinstance(st, ast.Assign) and len(st.targets) == 1 and isinstance(st.targets[0], (ast.Tuple, ast.List)) and isinstance(st.value, ast.Call) \
